@@ -264,6 +264,13 @@ Definition c08_law_check (c : nat * nat * (wire * wire * wire) * (wire * wire)) 
         else 0%nat
     end.
 
+(** the same verdict together with the class of the instance, 100 * class + verdict, so that the
+    harness evaluates every instance once (it decodes the two parts; a non-zero verdict part is a
+    violation exactly as for [c08_law_check]) *)
+Definition c08_law_check_cls (c : nat * nat * (wire * wire * wire) * (wire * wire)) : nat :=
+  let '(sr, n, (x, y, z), (lhs, rhs)) := c in
+  (100 * law_class_of sr n (w_xr x) (w_xr y) (w_xr z) + c08_law_check c)%nat.
+
 (** leastness: (sr, x, y, s) with s = star(x) as computed by the implementation.  If y solves
     y = 1 + x*y EXACTLY in the carrier (decided here, so float absorption such as
     1 + 1e308 = 1e308 cannot fake a solution) then s <= y is required. *)
